@@ -64,6 +64,11 @@ func main() {
 	runParsers(res)
 	runHTTP(res)
 	runSignalling(res)
+	if isCoordinator() {
+		if d := os.Getenv("C12_PROGRESS_DIR"); strings.Contains(d, "c12prog") {
+			os.RemoveAll(d)
+		}
+	}
 	core.Finish(res, start)
 }
 
